@@ -57,7 +57,9 @@ var unsafeWords = []string{"reboot", "exit", "rm", "exec", "cd", "set", "global"
 // split names: A is unsafe (or not a safe name), A+B is on the safe list
 var splitNames = [][2]string{{"exit", "num"}, {"cat", "ch"}, {"man", "-summary"}, {"murex", "-docs"}, {"get", "file"}, {"get", "-type"}, {"open", "-image"}, {"fid", "-list"}, {"struct", "-keys"}, {"t", "out"}, {"e", "scape"}, {"m", "sort"}, {"pre", "fix"}, {"pre", "pend"}, {"tab", "ulate"}, {"ex", "itnum"}, {"for", "mat"}, {"for", "map"}, {"for", "each"}, {"try", "pipe"}, {"ou", "t"}, {"run", "time"}, {"cpu", "count"}, {"l", "eft"}}
 
-var flowTokens = []string{"|", " | ", "| ", " |", "->", " -> ", "-> ", " ->", "=>", " => ", ";", "; ", " ; ", "&&", " && ", "||", " || ", "?:", " ?: ", " ? ", "|>", " |> ", " >> ", ">>", " > ", "\n", "\t|\t", " ->\t"}
+var flowTokens = []string{"|", " | ", "| ", " |", "->", " -> ", "-> ", " ->", "=>", " => ", ";", "; ", " ; ", "&&", " && ", "||", " || ", "?:", " ?: ", " ? ", "|>", " |> ", " >> ", ">>", " > ", "\n", "\t|\t", " ->\t",
+	// a line comment ends at its line feed: what follows is a new command
+	" # note\n", " # a | b -> c\n", "\t#\n", " #x\n ", "\n# only a comment\n"}
 
 // params: (text, unsafe?)
 type frag struct {
@@ -122,7 +124,7 @@ func genPipeline(t *rapid.T, depth int) (frag, int) {
 			ft := rapid.SampledFrom(flowTokens).Draw(t, "flow")
 			b.WriteString(ft)
 			flows++
-			if strings.Contains(ft, ">") && !strings.Contains(ft, "->") && !strings.Contains(ft, "=>") || strings.Contains(ft, "?") && !strings.Contains(ft, "?:") || ft == "\n" {
+			if strings.Contains(ft, ">") && !strings.Contains(ft, "->") && !strings.Contains(ft, "=>") || strings.Contains(ft, "?") && !strings.Contains(ft, "?:") || strings.Contains(ft, "\n") {
 				unsafe = true // redirection, stderr swap, newline
 			}
 		}
@@ -238,7 +240,14 @@ var spec = core.Spec[Case]{
 }
 
 func TestProp(t *testing.T)   { core.RunProp(t, spec) }
-func TestReplay(t *testing.T) { core.Replay(t, spec) }
+func TestReplay(t *testing.T) {
+	// a safe-list editing case (safelist_test.go) is recognised by its "word" field
+	if b, err := os.ReadFile(os.Getenv("VERIF_REPLAY")); err == nil && strings.Contains(string(b), "\"word\"") {
+		core.Replay(t, listSpec)
+		return
+	}
+	core.Replay(t, spec)
+}
 
 // FuzzSafeVerdict is the native coverage-guided target (thorough tier): the
 // fuzzed text is the part of the line in front of ` -> [ ` (or another
